@@ -24,6 +24,28 @@ def strategy(tier, flags):
         sym_pools=gen_fa.PLAIN_SYM_POOLS + ["int"], classes=("enfa", "enfa", "enfa", "nfa", "dfa"), allow_extra=False, big_states=(6, 7, 8))})
 
 
+EXHAUSTIVE_SCOPE = {
+    "quick": "all 4096 epsilon-NFAs with 2 states over {a, eps} and every start/final marking",
+    "thorough": "all 2-state epsilon-NFAs over {a, b, eps} with every start/final marking (65536) and all 3-state "
+                "epsilon-NFAs over {a, eps} with start state 0 and the inner state 1 neither start nor final, so that it is "
+                "eliminated (262144 transition sets x 4 final markings within {0, 2} = 1048576)",
+}
+
+
+def exhaustive(tier, shard, nshards):
+    from vlib.scope import enfa_scope, sharded
+    if tier == "quick":
+        for d in sharded(enfa_scope(2, False), shard, nshards):
+            yield {"fa": dict(d, pool="scope", sympool="abc")}
+        return
+    for d in sharded(enfa_scope(2, False, labels=("a", "b", None)), shard, nshards):
+        yield {"fa": dict(d, pool="scope", sympool="abc")}
+    # three states, state 1 is an inner state (never start, never final): every elimination pattern over {a, eps}
+    for d in sharded(enfa_scope(3, True), shard, nshards):
+        if d["starts"] == [0] and 1 not in d["finals"]:
+            yield {"fa": dict(d, pool="scope", sympool="abc")}
+
+
 def run_case(case):
     failures = []
     d = case["fa"]
